@@ -298,7 +298,7 @@ class Verdict(object):
                 self.nreplay += 1
                 path = os.path.join(OUT, "replays", "%s_%s_%d.json" % (self.prop, self.tier, self.nreplay))
                 with open(path, "w") as f:
-                    json.dump(dict(property=self.prop, violation=v), f, indent=1, default=str)
+                    json.dump(dict(property=self.prop, seed=seed(), violation=v), f, indent=1, default=str)
                 print("VIOLATION property=%s replay=%s  clause=%s %s" % (self.prop, path, v.get("clause"), str(v.get("what", ""))[:300]))
         coverage = dict(coverage)
         coverage["known_findings_seen"] = {kid: cnt for kid, (k, cnt) in self.known_hits.items()}
